@@ -237,8 +237,15 @@ func (q *TransmitLimitedQueue) deleteItem(cur *limitedBroadcast) {
 	if cur.name != "" {
 		delete(q.tm, cur.name)
 	}
+}
 
-	if q.tq.Len() == 0 {
+// resetIDGenIfIdle restarts the id generator once the queue holds nothing.
+// This must only be called when no item is held outside the tree (for
+// example pending re-insertion), otherwise a later submission could be
+// stamped with the id of a held item and replace it. You must already hold
+// the mutex.
+func (q *TransmitLimitedQueue) resetIDGenIfIdle() {
+	if q.lenLocked() == 0 {
 		// At idle there's no reason to let the id generator keep going
 		// indefinitely.
 		q.idGen = 0
@@ -357,6 +364,7 @@ func (q *TransmitLimitedQueue) GetBroadcasts(overhead, limit int) [][]byte {
 	for _, cur := range reinsert {
 		q.addItem(cur)
 	}
+	q.resetIDGenIfIdle()
 
 	return toSend
 }
@@ -414,4 +422,5 @@ func (q *TransmitLimitedQueue) Prune(maxRetain int) {
 		cur.b.Finished()
 		q.deleteItem(cur)
 	}
+	q.resetIDGenIfIdle()
 }
